@@ -19,12 +19,45 @@ func vhArrayShape() []int {
 	return counts
 }
 
-// vhDispose releases the slabs behind a storable handed back by the library.
+// vhDispose releases every slab behind a storable handed back by the library
+// (the caller's duty under C09): the referenced slab, the slabs of a whole
+// container tree, and whatever its elements reference in turn.
 func vhDispose(storage SlabStorage, s Storable) {
 	s = unwrapStorable(s)
-	if id, ok := s.(SlabIDStorable); ok {
-		_ = storage.Remove(SlabID(id))
+	switch x := s.(type) {
+	case SlabIDStorable:
+		vhDisposeSlab(storage, SlabID(x))
+	case *ArrayDataSlab:
+		for _, c := range x.ChildStorables() {
+			vhDispose(storage, c)
+		}
+	case *MapDataSlab:
+		for _, c := range x.ChildStorables() {
+			vhDispose(storage, c)
+		}
 	}
+}
+
+func vhDisposeSlab(storage SlabStorage, id SlabID) {
+	slab, ok, _ := storage.Retrieve(id)
+	if !ok {
+		return
+	}
+	switch x := slab.(type) {
+	case *ArrayMetaDataSlab:
+		for _, h := range x.childrenHeaders {
+			vhDisposeSlab(storage, h.slabID)
+		}
+	case *MapMetaDataSlab:
+		for _, h := range x.childrenHeaders {
+			vhDisposeSlab(storage, h.slabID)
+		}
+	default:
+		for _, c := range slab.ChildStorables() {
+			vhDispose(storage, c)
+		}
+	}
+	_ = storage.Remove(id)
 }
 
 //vh:prop C01 C05 C09 C06 C03
